@@ -173,4 +173,143 @@ def fixed_cases():
                     continue
                 seen.add(key)
                 out.append({'sql': sql, 'catalog': sp, 'mode': mode, 'meta': {'tags': ['fixed', 'shape:' + tag]}})
+    out.extend(c for c in wave6_cases() if (c['sql'], tuple(sorted(c['catalog'].items(), key=str)), c['mode']) not in seen)
+    return out
+
+
+# ---------------------------------------------------------------------------------------------------------------
+# wave 6: a project that is ALSO listed among the data integrations; outer clauses of a select from a native query;
+# UPDATE with conditions of its own; the dbt shape with a target that names a database
+ALSO_FORMS = [
+    # (tag, overrides); spec['also'] = 'proj' | 'mindsdb' | 'mindsdb+proj': projects that the catalog lists among the data
+    # integrations as well (a plain name when the integrations are names, a {'type': 'data'} dict in place of the
+    # project dict otherwise)
+    ('names-list', {'enc': 'names', 'pm': 'list'}),
+    ('dicts-list', {'enc': 'dicts', 'pm': 'list'}),
+    ('names-legacy', {'enc': 'names', 'pm': 'legacy'}),
+    ('dicts-legacy-upper', {'enc': 'dicts', 'pm': 'legacy', 'catcase': 'upper'}),
+]
+
+
+def also_shapes():
+    """statements that touch one project only (and a model of it), alone and nested in the listed positions, plus
+    controls (project tables only, a model next to an integration table)"""
+    for P, M, V, T2, TSM in (('proj', 'pred', 'v1', 't1', 'tsp'), ('mindsdb', 'pred2', 'v2', 't4', 'tsn')):
+        q = f'{{Q:{P}}}'
+        dns = ['mindsdb', None]
+        yield 'project-as-integration:model-select', P, f'SELECT * FROM {q}.{M} WHERE a = 1', dns
+        yield 'project-as-integration:model-select', P, f'SELECT * FROM {q}.{M}.3 WHERE a = 1 AND b = 2', dns
+        yield 'project-as-integration:model-select', P, f'SELECT * FROM {M} WHERE a = 1', [P]
+        yield 'project-as-integration:model-join', P, f'SELECT * FROM {q}.{V} AS x JOIN {q}.{M} AS m', dns
+        yield 'project-as-integration:model-join', P, f'SELECT x.a, m.p FROM {q}.{V} AS x JOIN {q}.{M}.12 AS m WHERE x.a > 1', dns
+        yield 'project-as-integration:model-join', P, f'SELECT * FROM {q}.{M} AS m JOIN {q}.{V} AS x', dns
+        yield 'project-as-integration:model-join', P, f'SELECT * FROM {V} AS x JOIN {M} AS m', [P]
+        yield 'project-as-integration:model-join', P, f'SELECT * FROM {q}.{V} AS x JOIN {q}.{T2} AS y ON x.a = y.a JOIN {q}.{M} AS m', dns
+        yield 'project-as-integration:ts-join', P, f'SELECT * FROM {q}.{V} AS x JOIN {q}.{TSM} AS m WHERE x.a > LATEST', dns
+        yield 'project-as-integration:ts-join', P, f'SELECT * FROM {V} AS x JOIN {TSM} AS m WHERE x.a > 1', [P]
+        yield 'project-as-integration:nested', P, f'SELECT q.a FROM (SELECT x.a, m.p FROM {q}.{V} AS x JOIN {q}.{M} AS m) AS q', dns
+        yield 'project-as-integration:nested', P, f'WITH c0 AS (SELECT x.a, m.p FROM {q}.{V} AS x JOIN {q}.{M} AS m) SELECT * FROM {{Q:int1}}.t1 AS y JOIN c0 AS z ON y.a = z.a', dns
+        yield 'project-as-integration:nested', P, f'WITH c0 AS (SELECT * FROM {q}.{M} WHERE a = 1) SELECT * FROM c0', dns
+        yield 'project-as-integration:nested', P, f'INSERT INTO {{Q:int1}}.t2 (a, b) SELECT x.a, m.p FROM {q}.{V} AS x JOIN {q}.{M} AS m', dns
+        yield 'project-as-integration:nested', P, f'CREATE TABLE {{Q:int1}}.t2 (SELECT * FROM {q}.{M} WHERE a = 1)', dns
+        yield 'project-as-integration:nested', P, f'SELECT y.a FROM {{Q:int1}}.t1 AS y WHERE y.a IN (SELECT m.p FROM {q}.{V} AS x JOIN {q}.{M} AS m)', dns
+        yield 'project-as-integration:nested', P, f'SELECT y.a, (SELECT max(m.p) FROM {q}.{V} AS x JOIN {q}.{M} AS m) AS c0 FROM {{Q:int1}}.t1 AS y', dns
+        yield 'project-as-integration:nested', P, f'SELECT x.a FROM {q}.{V} AS x JOIN {q}.{M} AS m UNION SELECT y.a FROM {{Q:int1}}.t1 AS y', dns
+        # controls: nothing but tables of the project / a model next to a table of an integration
+        yield 'project-as-integration:tables', P, f'SELECT * FROM {q}.{V} AS x WHERE x.a = 1', dns
+        yield 'project-as-integration:tables', P, f'SELECT * FROM {q}.{V} AS x JOIN {q}.{T2} AS y ON x.a = y.a', dns
+        yield 'project-as-integration:tables', P, f'SELECT x.a FROM {q}.{V} AS x WHERE x.a IN (SELECT y.a FROM {q}.{T2} AS y)', dns
+        yield 'project-as-integration:tables', P, f'SELECT * FROM {{Q:int1}}.t1 AS x JOIN {q}.{M} AS m', dns
+        yield 'project-as-integration:tables', P, f'DELETE FROM {q}.{V} WHERE a IN (SELECT y.a FROM {q}.{T2} AS y)', dns
+
+
+def native_shapes():
+    """outer clauses of a select whose FROM is a native query `integration (text)`: the text is opaque, the tables of
+    the sub-selects around it are ordinary references"""
+    three = ['mindsdb', 'int1', None]
+    N = '{Q:int1} (select * from t0)'
+    for o in ('{Q:int2}.t3', '{Q:int1}.t2', '{Q:proj}.v1'):
+        sub, agg = f'(SELECT s.a FROM {o} AS s)', f'(SELECT max(s.a) FROM {o} AS s)'
+        yield 'native-from:where-sub', f'SELECT * FROM {N} WHERE a IN {sub}', three
+        yield 'native-from:where-sub', f'SELECT * FROM {N} AS q WHERE q.a = {agg} AND q.b = 1', three
+        yield 'native-from:where-sub', f'SELECT * FROM {N} AS q WHERE EXISTS {sub}', three
+        yield 'native-from:where-sub', f'SELECT q.a FROM {N} AS q WHERE CASE {agg} WHEN 1 THEN 2 ELSE 3 END = q.a', three
+        yield 'native-from:where-sub', f'SELECT q.a FROM {N} AS q WHERE coalesce({agg}, 0) = q.a LIMIT 3', three
+        yield 'native-from:target-sub', f'SELECT q.a, {agg} AS c0 FROM {N} AS q', three
+        yield 'native-from:target-sub', f'SELECT CASE WHEN q.a = 1 THEN {agg} ELSE 0 END AS c0 FROM {N} AS q WHERE q.b = 1', three
+        yield 'native-from:target-sub', f'SELECT coalesce({agg}, q.a) AS c0 FROM {N} AS q', three
+        yield 'native-from:nested', f'INSERT INTO {{Q:int2}}.t4 (a, b) SELECT * FROM {N} AS q WHERE q.a IN {sub}', three
+        yield 'native-from:nested', f'SELECT * FROM (SELECT * FROM {N} AS q WHERE q.a IN {sub}) AS r WHERE r.b = 1', three
+        yield 'native-from:nested', f'WITH c0 AS (SELECT * FROM {N} AS q WHERE q.a IN {sub}) SELECT * FROM {{Q:int2}}.t4 AS y JOIN c0 AS z ON y.a = z.a', three
+        yield 'native-from:join', f'SELECT * FROM {N} AS x JOIN {{Q:int2}}.t4 AS y ON x.a = y.a WHERE x.a IN {sub}', three
+        yield 'native-from:join', f'SELECT x.a, {agg} AS c0 FROM {N} AS x JOIN {{Q:int2}}.t4 AS y ON x.a = y.a', three
+        yield 'native-from:join', f'SELECT * FROM {N} AS x JOIN {{Q:proj}}.pred AS m WHERE x.a IN {sub}', three
+        yield 'native-from:ts-join', f'SELECT * FROM {N} AS x JOIN {{Q:mindsdb}}.tsn AS m WHERE x.a > {agg}', three
+        yield 'native-from:ts-join', f'SELECT * FROM {N} AS x JOIN {{Q:proj}}.tsp AS m WHERE x.a > LATEST AND x.b IN (SELECT s.b FROM {o} AS s)', three
+    yield 'native-from:where-sub', f'SELECT * FROM {N} AS q WHERE q.a = (SELECT m.p FROM {{Q:mindsdb}}.pred2 AS m WHERE m.a = 1)', three
+    yield 'native-from:plain', f'SELECT * FROM {N}', three
+    yield 'native-from:plain', f'SELECT q.a FROM {N} AS q WHERE q.b = 1', three
+
+
+def update_shapes():
+    """UPDATE with conditions of its own: sub-selects in WHERE (with and without FROM), columns written with the
+    database in front"""
+    three = ['mindsdb', 'int1', None]
+    tgt = '{Q:int1}.t2'
+    src = '(SELECT * FROM {Q:int2}.t4) AS df'
+    for o in ('{Q:int2}.t3', '{Q:int1}.t1', '{Q:proj}.v1'):
+        yield 'update-where:sub', f'UPDATE {tgt} SET a = 1 WHERE b IN (SELECT s.b FROM {o} AS s)', three
+        yield 'update-where:sub', f'UPDATE {tgt} SET a = 1 WHERE b = (SELECT max(s.b) FROM {o} AS s) AND a > 0', three
+        yield 'update-where:sub', f'UPDATE {tgt} SET a = 1, b = 2 WHERE NOT EXISTS (SELECT s.b FROM {o} AS s WHERE s.a = 1)', three
+        yield 'update-where:sub', f'UPDATE t2 SET a = 1 WHERE b IN (SELECT s.b FROM {o} AS s)', ['int1']
+        yield 'update-where:from-sub', f'UPDATE {tgt} SET a = df.a FROM {src} WHERE t2.a = df.a AND t2.b IN (SELECT s.b FROM {o} AS s)', three
+        yield 'update-where:from-sub', f'UPDATE {tgt} SET a = df.a FROM {src} WHERE t2.a = df.a AND t2.b > (SELECT min(s.b) FROM {o} AS s)', three
+    yield 'update-where:qualified-column', f'UPDATE {tgt} SET a = 1 WHERE {tgt}.b = 2', three
+    yield 'update-where:qualified-column', f'UPDATE {tgt} SET a = 1 WHERE {tgt}.b = 2 OR {tgt}.a IS NULL', three
+    yield 'update-where:qualified-column', f'UPDATE {tgt} SET a = df.a FROM {src} WHERE {tgt}.a = df.a', three
+    yield 'update-where:plain', f'UPDATE {tgt} SET a = 1 WHERE b = 2', three
+    yield 'update-where:plain', f'UPDATE {tgt} SET a = df.a FROM {src} WHERE t2.a = df.a', three
+    yield 'update-where:plain', 'UPDATE t2 SET a = 1 WHERE t2.b = 2', ['int1']
+
+
+def dbt_qualified_shapes():
+    """the dbt shape (sub-select joined with a time-series model below INSERT / CREATE TABLE / UPDATE) with a target
+    that names a database and an inner table that names none: the inner table lives in the default namespace"""
+    some = ['mindsdb', 'int1', 'proj']
+    for m in ('{Q:proj}.tsp', '{Q:mindsdb}.tsn'):
+        for tgt in ('{Q:int1}.t2', '{Q:int2}.t4'):
+            for u in ('t7', 'sch.t8'):
+                for w in ('', ' WHERE q.a > LATEST', ' WHERE q.a > 1'):
+                    yield 'dbt-qualified-target:insert', f'INSERT INTO {tgt} (a, b) SELECT * FROM (SELECT * FROM {u} AS x1) AS q JOIN {m} AS m{w}', some
+                yield 'dbt-qualified-target:create', f'CREATE TABLE {tgt} (SELECT * FROM (SELECT * FROM {u} AS x1) AS q JOIN {m} AS m WHERE q.a > LATEST)', some
+                yield 'dbt-qualified-target:update', f'UPDATE {tgt} SET a = df.a FROM (SELECT * FROM (SELECT * FROM {u} AS x1) AS q JOIN {m} AS m WHERE q.a > 1) AS df WHERE {tgt.split(".")[-1]}.a = df.a', some
+
+
+def wave6_cases():
+    out, seen = [], set()
+
+    def add(tag, tpl, dn, sp, up):
+        if up and '{Q:' not in tpl:
+            return
+        sql = render(tpl, dn, up)
+        key = (sql, tuple(sorted(sp.items(), key=str)))
+        if key not in seen:
+            seen.add(key)
+            out.append({'sql': sql, 'catalog': sp, 'mode': 'plan', 'meta': {'tags': ['fixed', 'shape:' + tag]}})
+
+    for tag, P, tpl, dns in also_shapes():
+        for dn, up in itertools.product(dns, (False, True)):
+            forms = [(f, ov, P) for f, ov in ALSO_FORMS] + [('names-list', ALSO_FORMS[0][1], 'mindsdb+proj')]
+            for form, ov, also in forms:
+                if up and form in ('names-legacy', 'dicts-list') and not tag.endswith(('model-select', 'model-join')):
+                    continue
+                sp = dict(spec(dn, 'base'), **ov)
+                sp['also'] = also
+                add(tag, tpl, dn, sp, up)
+    for gen in (native_shapes, update_shapes, dbt_qualified_shapes):
+        for tag, tpl, dns in gen():
+            for dn, up in itertools.product(dns, (False, True)):
+                add(tag, tpl, dn, spec(dn, 'base'), up)
+                if not up:
+                    add(tag, tpl, dn, dict(spec(dn, 'base'), enc='dicts', pm='legacy'), up)
     return out
